@@ -86,6 +86,7 @@ static bool check_bytes_once(const uint8_t *b, size_t n, bool counting)
     int ref = vf_ref_decode(b, n, VK_OBJ, 10, NULL);
     for (int ov = 0; ov < 3; ov++) {
         Binson x;
+        x.put("zz_left_over_from_an_earlier_use", BinsonValue(7));      /* the object is REUSED: deserialize must replace, not merge */
         int r = call_overload(ov, b, n, x);
         if (counting) { vf_count(CT_STATES, 1); vf_count(r == 1 ? CT_RETURNED : CT_THREW, 1); }
         if (r == 3) { snprintf(why, sizeof why, "overload %d threw something that is not a std::exception", ov); snprintf(sigk, sizeof sigk, "bytes:non-std-exception:ov%d", ov); return false; }
@@ -301,15 +302,20 @@ static void big_docs(void)
     static vf_doc d;
     static char blob[3000];
     for (size_t i = 0; i < sizeof blob; i++) blob[i] = (char) ('a' + i % 26);
-    for (int variant = 0; variant < 3; variant++) {
+    for (int variant = 0; variant < 4; variant++) {
         if (!take()) continue;
         vf_b_reset(&d);
         vf_b_open(&d, VK_OBJ);
+        if (variant == 3) {     /* containers that START beyond the first-pass buffer of 1000 bytes */
+            vf_b_name(&d, "a", 1); vf_b_blob(&d, VK_STR, blob, 1500);
+            vf_b_name(&d, "b", 1); vf_b_open(&d, VK_OBJ); vf_b_name(&d, "c", 1); vf_b_int(&d, 1); vf_b_close(&d);
+            vf_b_name(&d, "c", 1); vf_b_open(&d, VK_ARR); vf_b_open(&d, VK_OBJ); vf_b_name(&d, "d", 1); vf_b_int(&d, 2); vf_b_close(&d); vf_b_open(&d, VK_ARR); vf_b_close(&d); vf_b_close(&d);
+        } else
         if (variant == 0) { vf_b_name(&d, "a", 1); vf_b_blob(&d, VK_STR, blob, 1200); vf_b_name(&d, "b", 1); vf_b_blob(&d, VK_BYT, blob, 2500); }
         else if (variant == 1) { vf_b_name(&d, "arr", 3); vf_b_open(&d, VK_ARR); for (int i = 0; i < 250; i++) vf_b_int(&d, 100000 + i); vf_b_close(&d); }
         else { for (int i = 0; i < 9; i++) { vf_b_name(&d, "n", 1); vf_b_open(&d, VK_OBJ); } vf_b_name(&d, "x", 1); vf_b_blob(&d, VK_STR, blob, 999); for (int i = 0; i < 9; i++) vf_b_close(&d); }
         vf_b_close(&d);
-        check_tree(&d, variant == 0 ? "big: 1200-byte string + 2500 bytes" : variant == 1 ? "big: array of 250 int32" : "big: 10 nested objects with a 999-byte string");
+        check_tree(&d, variant == 0 ? "big: 1200-byte string + 2500 bytes" : variant == 1 ? "big: array of 250 int32" : variant == 2 ? "big: 10 nested objects with a 999-byte string" : "big: nested object and array after a 1500-byte string");
         check_bytes(d.bytes, d.len, "big document bytes");
     }
     /* payloads and keys with 2- and 4-byte length prefixes */
